@@ -4,7 +4,7 @@
    absent key). *)
 From Coq Require Import List ZArith Bool Arith Lia.
 From SC Require Import Base.Res Base.PyList Inst.Heap Inst.ClassTable Inst.Model Inst.Canon
-  Inst.Abs Inst.SpecHelpers Inst.ElemProofs Inst.Framed Inst.RefineProofs Inst.CopyProofs Inst.ElemRefine
+  Inst.Abs Inst.SpecHelpers Inst.ElemProofs Inst.Framed Inst.RefineProofs Inst.CopyProofs Inst.ElemRefineDep Inst.ElemRefine
   Inst.ElemRefine2.
 Import ListNotations.
 Open Scope nat_scope.
@@ -220,7 +220,7 @@ Section DictAttr.
   Hypothesis Ha : lookup_attr k a = Some sp.
   Hypothesis Hd : NoDup (map fst d).
   Hypothesis Hfz : c_frozen k = false.
-  Hypothesis Hni : no_inval k.
+  Hypothesis Hni : no_dep k a.
   Hypothesis Hty : a_ty sp = TDict tk tv.
   Hypothesis Hdk : ty_depth tk < FUEL.
   Hypothesis Hdv : ty_depth tv < FUEL.
